@@ -245,13 +245,18 @@ def run_shard(job: dict[str, Any]) -> dict[str, Any]:
                         if not h.live_ids():
                             continue  # the script closed the session: nothing left to serve
                     # ... then the same scripts without their opens: the existing session keeps serving
+                    session_open = bool(h.live_ids())
                     for r in reqs:
                         ops = [o for o in r if o != "open"] or ["use"]
                         try:
                             res = view.run(ops=",".join(ops))
                             chk.hit("drain_existing_served")
-                            if "use" in ops and "close" not in ops[: ops.index("use") + 1] and "none" in res.split(","):
-                                chk.violation("existing_session_refused_during_drain", "ctx.session was None for a live session while draining", {**wit, "result": res})
+                            # per operation: a 'use' must see the session unless this or an earlier request closed it
+                            for op, got in zip(ops, res.split(","), strict=False):
+                                if op == "close":
+                                    session_open = False
+                                elif op == "use" and session_open and got == "none":
+                                    chk.violation("existing_session_refused_during_drain", "ctx.session was None for a live session while draining", {**wit, "result": res, "ops": ops})
                         except RpcError as e:
                             chk.violation("existing_session_refused_during_drain", f"{e.error_type}: {e.error_message[:100]}", wit)
                         _check_view(chk, h, view, tuple(ops), wit)
